@@ -830,6 +830,21 @@ func (e *Env) resolveType(name string) types.Type {
 	if strings.HasPrefix(name, "[]") {
 		return types.NewSlice(e.resolveType(name[2:]))
 	}
+	if strings.HasPrefix(name, "map[") {
+		depth := 0
+		for i := 3; i < len(name); i++ {
+			switch name[i] {
+			case '[':
+				depth++
+			case ']':
+				depth--
+				if depth == 0 {
+					return types.NewMap(e.resolveType(name[4:i]), e.resolveType(name[i+1:]))
+				}
+			}
+		}
+		e.fail("malformed map type %q", name)
+	}
 	if i := strings.Index(name, "."); i > 0 {
 		pkg := e.importedPkg(name[:i])
 		if pkg == nil {
